@@ -1,0 +1,14 @@
+//go:build verif
+
+package badgerstore
+
+// VerifHook, when set (before the service is used), is called at the
+// instrumentation points compiled in with the "verif" build tag. It is used by
+// the external verification harness for tracing and schedule control only.
+var VerifHook func(point string, args ...interface{})
+
+func vhook(point string, args ...interface{}) {
+	if h := VerifHook; h != nil {
+		h(point, args...)
+	}
+}
